@@ -1,0 +1,216 @@
+//! Verification hooks (compiled only with `--cfg sneldb_verif`).
+//!
+//! `step(name, detail)` is called at linearisation points of the write, flush,
+//! compaction, start-up and read paths. It can
+//!  * append one NDJSON line per step to the file named by `VERIF_TRACE`
+//!    (sequence number taken under one process-wide mutex, written before returning);
+//!  * terminate the process at the n-th occurrence of a named step
+//!    (`VERIF_CRASH_AT=<name>#<n>`, or `arm_crash`) with `abort()`;
+//!  * park the calling task at a named step until the in-process driver releases it
+//!    (`park_at` / `wait_parked` / `release`), so that a test can act while the
+//!    pipeline is stopped at that step.
+//! Injectable clocks (`set_clock_secs`, `set_clock_millis`) replace the system clock
+//! for the STORE timestamp and the event-id generator when set.
+
+use std::collections::HashMap;
+use std::io::Write;
+use std::sync::atomic::{AtomicBool, AtomicU64, Ordering};
+use std::sync::{Condvar, Mutex, OnceLock};
+
+struct State {
+    seq: u64,
+    trace: Option<std::fs::File>,
+    trace_checked: bool,
+    counts: HashMap<String, u64>,
+    crash_at: Option<(String, u64)>,
+    crash_checked: bool,
+    park: HashMap<String, ParkState>,
+}
+
+#[derive(Clone, Copy, PartialEq, Eq)]
+enum ParkState {
+    Armed,
+    Parked,
+    Released,
+}
+
+fn state() -> &'static (Mutex<State>, Condvar) {
+    static S: OnceLock<(Mutex<State>, Condvar)> = OnceLock::new();
+    S.get_or_init(|| {
+        (
+            Mutex::new(State {
+                seq: 0,
+                trace: None,
+                trace_checked: false,
+                counts: HashMap::new(),
+                crash_at: None,
+                crash_checked: false,
+                park: HashMap::new(),
+            }),
+            Condvar::new(),
+        )
+    })
+}
+
+static ENABLED: AtomicBool = AtomicBool::new(true);
+
+/// Called at a named step, after the state change it names.
+pub fn step(name: &str, detail: &str) {
+    if !ENABLED.load(Ordering::Relaxed) {
+        return;
+    }
+    let (m, cv) = state();
+    let mut st = m.lock().unwrap_or_else(|e| e.into_inner());
+    if !st.trace_checked {
+        st.trace_checked = true;
+        if let Ok(p) = std::env::var("VERIF_TRACE") {
+            st.trace = std::fs::OpenOptions::new()
+                .create(true)
+                .append(true)
+                .open(p)
+                .ok();
+        }
+    }
+    if !st.crash_checked {
+        st.crash_checked = true;
+        if st.crash_at.is_none() {
+            if let Ok(spec) = std::env::var("VERIF_CRASH_AT") {
+                if let Some((n, k)) = spec.rsplit_once('#') {
+                    st.crash_at = Some((n.to_string(), k.parse().unwrap_or(1)));
+                } else if !spec.is_empty() {
+                    st.crash_at = Some((spec, 1));
+                }
+            }
+        }
+    }
+    st.seq += 1;
+    let seq = st.seq;
+    let n = {
+        let c = st.counts.entry(name.to_string()).or_insert(0);
+        *c += 1;
+        *c
+    };
+    if let Some(f) = st.trace.as_mut() {
+        let line = if detail.is_empty() {
+            format!("{{\"seq\":{seq},\"ev\":\"{name}\",\"n\":{n}}}\n")
+        } else {
+            format!("{{\"seq\":{seq},\"ev\":\"{name}\",\"n\":{n},{detail}}}\n")
+        };
+        let _ = f.write_all(line.as_bytes());
+        let _ = f.flush();
+    }
+    if let Some((cn, ck)) = &st.crash_at {
+        if cn == name && *ck == n {
+            if let Some(f) = st.trace.as_mut() {
+                let _ = f.write_all(
+                    format!("{{\"seq\":{},\"ev\":\"crash\",\"at\":\"{name}\",\"n\":{n}}}\n", seq + 1)
+                        .as_bytes(),
+                );
+                let _ = f.flush();
+            }
+            std::process::abort();
+        }
+    }
+    if st.park.get(name) == Some(&ParkState::Armed) {
+        st.park.insert(name.to_string(), ParkState::Parked);
+        cv.notify_all();
+        while st.park.get(name) == Some(&ParkState::Parked) {
+            st = cv.wait(st).unwrap_or_else(|e| e.into_inner());
+        }
+        st.park.remove(name);
+    }
+}
+
+/// Arm a crash at the n-th next occurrence of `name` (counted from process start).
+pub fn arm_crash(name: &str, nth: u64) {
+    let (m, _) = state();
+    let mut st = m.lock().unwrap_or_else(|e| e.into_inner());
+    st.crash_at = Some((name.to_string(), nth));
+    st.crash_checked = true;
+}
+
+/// Number of times `name` has been reached so far.
+pub fn count(name: &str) -> u64 {
+    let (m, _) = state();
+    let st = m.lock().unwrap_or_else(|e| e.into_inner());
+    st.counts.get(name).copied().unwrap_or(0)
+}
+
+/// The next task that reaches `name` blocks there until `release(name)`.
+pub fn park_at(name: &str) {
+    let (m, _) = state();
+    let mut st = m.lock().unwrap_or_else(|e| e.into_inner());
+    st.park.insert(name.to_string(), ParkState::Armed);
+}
+
+/// Wait until some task is parked at `name`; false on time-out.
+pub fn wait_parked(name: &str, timeout_ms: u64) -> bool {
+    let (m, cv) = state();
+    let mut st = m.lock().unwrap_or_else(|e| e.into_inner());
+    let deadline = std::time::Instant::now() + std::time::Duration::from_millis(timeout_ms);
+    while st.park.get(name) != Some(&ParkState::Parked) {
+        let now = std::time::Instant::now();
+        if now >= deadline {
+            return false;
+        }
+        let (g, _) = cv
+            .wait_timeout(st, deadline - now)
+            .unwrap_or_else(|e| e.into_inner());
+        st = g;
+    }
+    true
+}
+
+/// Let the task parked at `name` continue (also disarms a not-yet-reached park point).
+pub fn release(name: &str) {
+    let (m, cv) = state();
+    let mut st = m.lock().unwrap_or_else(|e| e.into_inner());
+    match st.park.get(name) {
+        Some(ParkState::Parked) => {
+            st.park.insert(name.to_string(), ParkState::Released);
+        }
+        _ => {
+            st.park.remove(name);
+        }
+    }
+    cv.notify_all();
+}
+
+static CLOCK_SECS: AtomicU64 = AtomicU64::new(u64::MAX);
+static CLOCK_MILLIS: AtomicU64 = AtomicU64::new(u64::MAX);
+static CLOCK_MILLIS_STEP: AtomicU64 = AtomicU64::new(0);
+
+/// Injected STORE timestamp (seconds); `None` = system clock.
+pub fn clock_secs() -> Option<u64> {
+    match CLOCK_SECS.load(Ordering::SeqCst) {
+        u64::MAX => None,
+        v => Some(v),
+    }
+}
+pub fn set_clock_secs(v: Option<u64>) {
+    CLOCK_SECS.store(v.unwrap_or(u64::MAX), Ordering::SeqCst);
+}
+
+/// Injected id-generator clock (milliseconds); `None` = system clock. With a non-zero
+/// auto step every read advances the clock by that amount (so that waiting for the
+/// "next millisecond" terminates under a scripted clock).
+pub fn clock_millis() -> Option<u64> {
+    match CLOCK_MILLIS.load(Ordering::SeqCst) {
+        u64::MAX => None,
+        v => {
+            let step = CLOCK_MILLIS_STEP.load(Ordering::SeqCst);
+            if step > 0 {
+                CLOCK_MILLIS.fetch_add(step, Ordering::SeqCst);
+            }
+            Some(v)
+        }
+    }
+}
+pub fn set_clock_millis(v: Option<u64>, auto_step: u64) {
+    CLOCK_MILLIS_STEP.store(auto_step, Ordering::SeqCst);
+    CLOCK_MILLIS.store(v.unwrap_or(u64::MAX), Ordering::SeqCst);
+}
+
+pub fn set_enabled(on: bool) {
+    ENABLED.store(on, Ordering::Relaxed);
+}
